@@ -93,11 +93,62 @@ def snapshot_module_state(prefixes=("gffutils",)):
                     pass
             elif isinstance(v, (bool, int, float, str, bytes, tuple, frozenset, type(None))):
                 entry[k] = ("value", v, None)
+        # class-level state of the classes defined in the module (a shared buffer / cache / flag on the class)
+        for cn, cls in list(vars(mod).items()):
+            if isinstance(cls, type) and getattr(cls, "__module__", None) == name:
+                for k, v in list(vars(cls).items()):
+                    if k.startswith("__"):
+                        continue
+                    if type(v) in (dict, list, set) or type(v).__name__ in ("defaultdict", "OrderedDict"):
+                        try:
+                            entry["%s.%s" % (cn, k)] = ("class-container", v, v.copy(), cls, k)
+                        except Exception:
+                            pass
+                    elif isinstance(v, (bool, int, float, str, bytes, tuple, frozenset, type(None))):
+                        entry["%s.%s" % (cn, k)] = ("class-value", v, None, cls, k)
         _GLOBAL_SNAPSHOT[name] = (mod, entry)
+
+    def _same(obj, saved):
+        try:
+            return len(obj) == len(saved) and obj == saved
+        except Exception:
+            return False
+
+    def changes():
+        """names of module-level / class-level state of the modules under analysis that differs from the import-time state"""
+        out = []
+        for name, (mod, entry) in _GLOBAL_SNAPSHOT.items():
+            for k, rec in entry.items():
+                kind, obj, saved = rec[0], rec[1], rec[2]
+                if kind == "container":
+                    if vars(mod).get(k) is not obj or not _same(obj, saved):
+                        out.append("%s.%s" % (name, k))
+                elif kind == "value":
+                    if vars(mod).get(k, None) is not obj:
+                        out.append("%s.%s" % (name, k))
+                elif kind == "class-container":
+                    if vars(rec[3]).get(rec[4]) is not obj or not _same(obj, saved):
+                        out.append("%s.%s" % (name, k))
+                elif kind == "class-value":
+                    if vars(rec[3]).get(rec[4], None) is not obj:
+                        out.append("%s.%s" % (name, k))
+        return out
 
     def restore():
         for name, (mod, entry) in _GLOBAL_SNAPSHOT.items():
-            for k, (kind, obj, saved) in entry.items():
+            for k, rec in entry.items():
+                kind, obj, saved = rec[0], rec[1], rec[2]
+                if kind in ("class-container", "class-value"):
+                    cls, attr = rec[3], rec[4]
+                    if vars(cls).get(attr, None) is not obj:
+                        try:
+                            setattr(cls, attr, obj)
+                        except Exception:
+                            pass
+                    if kind == "class-container" and not _same(obj, saved):
+                        obj.clear()
+                        (obj.extend if isinstance(obj, list) else obj.update)(saved)
+                    continue
                 if kind == "container":
                     cur = vars(mod).get(k)
                     if cur is not obj:
@@ -120,6 +171,7 @@ def snapshot_module_state(prefixes=("gffutils",)):
             pass
     from . import core as _core
     _core.PATH_RESET_HOOKS.append(restore)
+    _core.PATH_END_HOOKS.append(changes)
 
 
 def func_ast(fn):
